@@ -37,6 +37,7 @@ def parseTxMsgs : Nat → List String → Option (List TxMsg)
 /-- returns (new state, answer) -/
 def handleAuth (st : AuthState) : List String → AuthState × String
   | ["cfg", "admin", role, addr] => ({ st with admin := st.admin.add (role, addr) }, "ok")
+  | ["reset"] => (AuthState.empty, "ok")   -- a new world: the cfg lines that follow describe its role stores
   | ["reimport"] => (st, "ok")   -- export → import round trip of the role table: nothing may change
   | ["cfg", "oracle", "-"] => ({ st with oracleAdmin := none }, "ok")
   | ["cfg", "oracle", addr] => ({ st with oracleAdmin := some addr }, "ok")
